@@ -146,11 +146,12 @@ func vhLexTag(tag string, field int, out []vtag) []vtag {
 // ---------- tag parser ----------
 
 type vtagParser struct {
-	toks  []vtag
-	pos   int
-	prod  *rprod
-	prods map[reflect.Type]*rprod
-	union map[reflect.Type][]reflect.Type
+	syntaxOnly bool // parse without resolving fields / sub-productions
+	toks       []vtag
+	pos        int
+	prod       *rprod
+	prods      map[reflect.Type]*rprod
+	union      map[reflect.Type][]reflect.Type
 }
 
 func (p *vtagParser) peek() vtag {
@@ -233,6 +234,9 @@ func (p *vtagParser) atom() *rx {
 		if p.isPunct(":") {
 			p.pos++
 			ty := p.peek()
+			if ty.kind != 'i' {
+				panic("reference tag parser: expected a token name after ':'")
+			}
 			p.pos++
 			return &rx{kind: kTLit, s: t.text, typ: ty.text}
 		}
@@ -245,6 +249,13 @@ func (p *vtagParser) atom() *rx {
 		case "@":
 			p.pos++
 			fi := p.fieldIndex(t.field)
+			if p.syntaxOnly {
+				if p.isPunct("@") {
+					p.pos++
+					return &rx{kind: kSub, field: fi}
+				}
+				return &rx{kind: kCap, field: fi, kids: []*rx{p.atom()}}
+			}
 			if p.isPunct("@") {
 				p.pos++
 				f := &p.prod.fields[fi]
@@ -259,6 +270,9 @@ func (p *vtagParser) atom() *rx {
 			if p.isPunct("?") {
 				p.pos++
 				neg := p.isPunct("!")
+				if !neg && !p.isPunct("=") {
+					panic("reference tag parser: expected = or ! after (?")
+				}
 				p.pos++
 				body := p.disj()
 				p.expect(")")
